@@ -69,6 +69,41 @@ PolBmax(pol) ==
     [] pol.kind = "script" -> SetMax(pol.allow)
     [] OTHER -> 0
 
+(***************************************************************************)
+(* THE DOCUMENTED DECISIONS OF THE SHIPPED POLICIES (pol.name), at the     *)
+(* granularity the executor distinguishes: "retried" (Retry or             *)
+(* RetryNextHost) / "stop" (Ignore or Rethrow: queryExecutor.do returns    *)
+(* the attempt's Iter for both) / "any" (the godoc says nothing).          *)
+(* SimpleRetryPolicy, ExponentialBackoffRetryPolicy: the godoc documents   *)
+(* the budget only (NumRetries) -> "any".                                  *)
+(* DowngradingConsistencyRetryPolicy (godoc, policies.go):                 *)
+(*   "On a read timeout: the operation is retried with the next provided   *)
+(*    consistency level."                                       -> retried *)
+(*   "On a write timeout: if the operation is an UNLOGGED_BATCH and at     *)
+(*    least one replica acknowledged the write, the operation is retried   *)
+(*    ... Furthermore, for other write types, if at least one replica      *)
+(*    acknowledged the write, the timeout is ignored."                     *)
+(*      UNLOGGED_BATCH, acknowledged -> retried; every other write type    *)
+(*      (SIMPLE BATCH COUNTER CAS BATCH_LOG VIEW CDC) -> stop, acknowledged *)
+(*      (ignored) or not (the godoc lists no retry for it).                *)
+(*      UNLOGGED_BATCH, not acknowledged -> "any": the godoc lists no      *)
+(*      retry, the repository's own TestDowngradingConsistencyRetryPolicy  *)
+(*      expects Retry - ambiguous, not judged.                             *)
+(*   "On an unavailable exception: if at least one replica is alive, the   *)
+(*    operation is retried ..."        alive -> retried; none alive -> stop *)
+(*   every other error: "any".                                             *)
+(* Error classes as the harness names them: unavail_alive | unavail_dead | *)
+(* read_timeout | read_timeout_data | wt_<type>_<recv|none>.               *)
+(***************************************************************************)
+WtOtherTypes == {"simple", "batch", "counter", "cas", "batchlog", "view", "cdc"}
+WtOtherClasses == {"wt_" \o t \o "_" \o a : t \in WtOtherTypes, a \in {"recv", "none"}}
+DocDecision(name, y) ==
+  IF name # "downgrade" THEN "any"
+  ELSE IF y \in {"read_timeout", "read_timeout_data", "unavail_alive", "wt_unlogged_recv"} THEN "retried"
+  ELSE IF y \in {"unavail_dead"} \cup WtOtherClasses THEN "stop"
+  ELSE "any"
+DecisionClass(d) == IF d \in {"retry", "next"} THEN "retried" ELSE "stop"
+
 SpecModeOf(c) == c.idem /\ c.k > 0
 \* an attempt (or executeQuery itself) answering with the context's own error: context.Canceled
 \* ("canceled") or context.DeadlineExceeded ("deadline", the caller's deadline expired)
@@ -205,7 +240,8 @@ MonStep(m, evt, c) ==
              r1 == IF evt.x = "unknown"
                    THEN [r EXCEPT !.dec = evt.x, !.comp = TRUE, !.ratt = 0, !.reord = 0, !.rx = "unknownretry"]
                    ELSE [r EXCEPT !.dec = evt.x, !.comp = stop] IN
-         AddExec(SetX(m, r1), {})
+         AddExec(SetX(m, r1), IF DocDecision(c.pol.name, evt.y) \notin {"any", DecisionClass(evt.x)}
+                              THEN {"retry-decision-not-as-documented"} ELSE {})
     [] evt.ev = "cancel" -> [m EXCEPT !.cancelled = TRUE]
     [] evt.ev = "quiesce" -> [m EXCEPT !.q = {f \in m.execs : m.x[f].comp}]
     [] evt.ev = "return" -> [m EXCEPT !.ret = TRUE, !.viol = @ \cup ReturnKeys(m, evt.n, evt.h, evt.x, c)]
